@@ -213,6 +213,22 @@ def api_cases(ctx):
         c = ph((3, 4), "bool")
         out.append((f"typed-scalar-right:where-then:{adt}:{type(sc).__name__}", pt.where(c, sc, ph((3, 4), adt)), True))
         out.append((f"typed-scalar-right:where-else:{adt}:{type(sc).__name__}", pt.where(c, ph((3, 4), adt), sc), True))
+    # NaN scalars of every inexact type next to arrays of every inexact type (a complex NaN is a NaN too)
+    for adt in ("float64", "float32", "complex128", "complex64"):
+        for lbl, sc in [("nan", float("nan")), ("f32-nan", np.float32("nan")), ("c-nan", complex("nan")),
+                        ("c64-nan", np.complex64("nan")), ("c128-nan-imag", np.complex128(complex(1.0, float("nan"))))]:
+            if np.dtype(adt).kind == "f" and isinstance(sc, (complex, np.complexfloating)) and False:
+                continue
+            for nm, f in arith[:3]:
+                try:
+                    out.append((f"nan-scalar:{nm}:{adt}:{lbl}", f(ph((3, 4), adt), sc), True))
+                    out.append((f"nan-scalar:r{nm}:{adt}:{lbl}", f(sc, ph((3, 4), adt)), True))
+                except Exception:   # noqa: BLE001
+                    pass
+            try:
+                out.append((f"nan-scalar:where:{adt}:{lbl}", pt.where(ph((3, 4), "bool"), ph((3, 4), adt), sc), True))
+            except Exception:   # noqa: BLE001
+                pass
     for s, t in [((4,), (3, 4)), ((3, 1), (3, 4)), ((), (2, 2)), ((1, 4), (5, 3, 4))]:
         out.append((f"broadcast_to:{s}->{t}", pt.broadcast_to(ph(s, "float64"), t), True))
     try:
